@@ -637,7 +637,7 @@ Proof.
     intros s bs' Hs. apply struct_no_oof with (rk := rk); auto.
 Qed.
 
-(** F12 (open finding): with a cyclic schema no recursion budget suffices — the Rust code recurses
+(** F26cyc (open finding): with a cyclic schema no recursion budget suffices — the Rust code recurses
     without bound. *)
 Lemma deser_cyclic_refuted :
   exists defs name, forall fuel bs, deser_struct defs [] fuel name bs = Err DOutOfFuel.
